@@ -9,6 +9,10 @@ Inductive case :=
    return an error, the dumped BASE/CHECK cells and node table, lookups *)
 | CTab (pats : list (bytes * nat)) (builderr : bool) (cells : list N) (nds : list (nat * list bytes))
        (ls : list (bytes * obs))
+(* one Build and many lookups without the dumped arrays: the continuation chunks of a long path
+   list (the array representation check is quadratic and is run once, on the tab case) and the
+   bigger tables of the reserved-byte-after-a-pattern family *)
+| CLook (pats : list (bytes * nat)) (builderr : bool) (ls : list (bytes * obs))
 (* the same records built in two orders, the same paths looked up in both routers *)
 | COrder (pats pats' : list (bytes * nat)) (ls : list (bytes * (obs * obs)))
 (* denco.Mux: handlers (method, path, id), requests (method, URL.Path) -> handler chosen and params *)
@@ -42,9 +46,15 @@ Definition not_panic (o : obs) : bool := match o with OPanic => false | _ => tru
    da_lookup_refines_fuel *)
 Definition fuel_for (pats : list (bytes * nat)) : nat := S (pdepth (model_trie pats)).
 
+(* per-table precomputation: check_case computes the static records, the model trie and the tokenised
+   table once per case and uses the _pre variants of Model/DencoDA.v (equal to router_lookup,
+   da_router_lookup and answer_ok: C05_check_shortcuts) *)
 (* the property's predicate on one observed answer *)
 Definition lookup_prop (pats : list (bytes * nat)) (l : bytes * obs) : bool :=
   not_panic (snd l) && answer_ok Nat.eqb pats (fst l) (obs_answer (snd l)).
+
+Definition lookup_prop_pre (ents : list (shape * (nat * list bytes))) (l : bytes * obs) : bool :=
+  not_panic (snd l) && answer_ok_pre Nat.eqb ents (fst l) (obs_answer (snd l)).
 
 Definition check_case (c : case) : N :=
   match c with
@@ -52,15 +62,28 @@ Definition check_case (c : case) : N :=
     if wf_patset pats then
       let d := mkDA cells nds in
       let fu := fuel_for pats in
+      let st := statics_of pats in
+      let t := model_trie pats in
+      let ents := entries_of pats in
       verdict
         (negb builderr
          && repr_ok Nat.eqb pats d
-         && forallb (fun l => obs_eqb (snd l) (router_lookup pats (fst l))
-                              && obs_eqb (snd l) (da_router_lookup fu pats d (fst l))) ls)
-        (negb builderr && forallb (lookup_prop pats) ls)
+         && forallb (fun l => obs_eqb (snd l) (router_lookup_pre st t (fst l))
+                              && obs_eqb (snd l) (da_router_lookup_pre fu st d (fst l))) ls)
+        (negb builderr && forallb (lookup_prop_pre ents) ls)
     else
       (* outside the domain of the theorems (key with the termination byte or NUL, two keys of one
          shape, duplicate names): only the panic clause is evaluated, when Build accepted the table *)
+      verdict true (builderr || forallb (fun l => not_panic (snd l)) ls)
+  | CLook pats builderr ls =>
+    if wf_patset pats then
+      let st := statics_of pats in
+      let t := model_trie pats in
+      let ents := entries_of pats in
+      verdict
+        (negb builderr && forallb (fun l => obs_eqb (snd l) (router_lookup_pre st t (fst l))) ls)
+        (negb builderr && forallb (lookup_prop_pre ents) ls)
+    else
       verdict true (builderr || forallb (fun l => not_panic (snd l)) ls)
   | COrder pats pats' ls =>
     verdict
